@@ -118,6 +118,19 @@ func runC10(w *World, tier string, mode string) (bool, interface{}) {
 				return
 			}
 			x.Signature = ed25519.Sign(w.Nodes[by].Priv, x.Bytes()) // correctly signed by S itself
+			if w.Tape.Bool(1, 2, "alsoSenderField") {
+				// S also writes P's name into the (unauthenticated) sender field; the signature is still S's
+				for _, nd := range w.Nodes[:n] {
+					if d := nd.Dump(m.DkgRoundID); d != nil {
+						for name, id := range d.Payload.IDs {
+							if id == p {
+								x.SenderAddr = name
+							}
+						}
+						break
+					}
+				}
+			}
 			injected++
 			kinds = append(kinds, "impersonation@"+m.Event)
 			w.Stats.Fault("impersonation")
